@@ -154,24 +154,44 @@ func run(c *hc.Ctx) error {
 			return r.Bytes(hc.Pick(r, 16, 8, 0, 32, r.Range(1, 40)))
 		}
 	}
-	validG := func(p *big.Int) int {
+	// generators allowed by the residue rule, decided independently of the implementation (Euler's criterion)
+	validGs := func(p *big.Int) []int {
 		var ok []int
 		for g := 2; g <= 7; g++ {
-			if crypto.CheckGP(g, p) == nil {
+			if euler(int64(g), p) {
 				ok = append(ok, g)
 			}
 		}
+		return ok
+	}
+	validG := func(p *big.Int) int {
+		ok := validGs(p)
 		return ok[r.Intn(len(ok))]
+	}
+	// a valid group for a given generator: the production prime when it allows g, else a table prime
+	groupFor := func(g int, preferProduction bool) *big.Int {
+		if preferProduction && euler(int64(g), sps[0]) {
+			return sps[0]
+		}
+		start := 1 + r.Intn(len(sps)-1)
+		for k := 0; k < len(sps); k++ {
+			p := sps[1+(start+k)%(len(sps)-1)]
+			if euler(int64(g), p) {
+				return p
+			}
+		}
+		return nil
 	}
 
 	t0 := time.Now()
 	// ---- 1. honest sessions.  Accounts (group, generator, password, salts; PBKDF2 once each) ...
-	nAcc := c.N(4, 16)
+	nAcc := c.N(6, 18) // every generator 2..7 that the residue rule allows gets an account
 	var accs []*account
 	for i := 0; i < nAcc; i++ {
-		p := sps[0]
-		if i%2 == 1 {
-			p = sps[1+r.Intn(len(sps)-1)]
+		g := 2 + i%6
+		p := groupFor(g, i < 6)
+		if p == nil {
+			continue
 		}
 		pw, s1, s2 := genBytes("pw"), genBytes("salt1"), genBytes("salt2")
 		wrong := append(append([]byte{}, pw...), byte('x'))
@@ -179,12 +199,14 @@ func run(c *hc.Ctx) error {
 			wrong = append([]byte{}, pw...)
 			wrong[r.Intn(len(wrong))] ^= 1 << uint(r.Intn(8))
 		}
-		accs = append(accs, newAccount(p, validG(p), pw, s1, s2, wrong))
+		accs = append(accs, newAccount(p, g, pw, s1, s2, wrong))
+		c.Count(fmt.Sprintf("account.g=%d", g))
 	}
+	nAcc = len(accs)
 	// an account whose k = H(p | g) starts with a zero byte, if the table has one
 	for _, p := range sps {
 		for g := 2; g <= 7; g++ {
-			if crypto.CheckGP(g, p) == nil && h(pad(p), pad(big.NewInt(int64(g))))[0] == 0 && len(accs) == nAcc {
+			if euler(int64(g), p) && h(pad(p), pad(big.NewInt(int64(g))))[0] == 0 && len(accs) == nAcc {
 				accs = append(accs, newAccount(p, g, genBytes("pw"), genBytes("salt1"), genBytes("salt2"), []byte("wrong")))
 				c.Count("account.k-with-leading-zero-byte")
 			}
@@ -436,6 +458,29 @@ func run(c *hc.Ctx) error {
 			continue
 		}
 		cs = append(cs, cmp{line, out})
+	}
+
+	// ---- 3a. genuine safe-prime groups of the wrong size (1024..2056 bits) with a generator the residue rule
+	// allows: everything but the size is right, they must be refused
+	for _, p := range hc.SafePrimesOffSize() {
+		pr1 := crypto.Prime(p)
+		pr2 := crypto.Prime(new(big.Int).Rsh(p, 1))
+		gs := validGs(p)
+		if !c.Thorough() && len(gs) > 2 {
+			gs = []int{gs[0], gs[len(gs)-1]}
+		}
+		for _, g := range gs {
+			pw, s1, s2 := genBytes("pw"), genBytes("salt1"), genBytes("salt2")
+			srpB, random := r.Bytes(256), r.Bytes(256)
+			_, out := call(pw, srpB, random, srp.Input{Salt1: s1, Salt2: s2, G: g, P: p.Bytes()})
+			line := fmt.Sprintf("srpk %d %s %s %s %s %s %s %s %s %s", g, hc.Hex(p.Bytes()), bit(pr1), bit(pr2), hc.Hex(pw), hc.Hex(s1), hc.Hex(s2), hc.Hex(srpB), hc.Hex(random), hc.Hex(make([]byte, 64)))
+			c.Eval(line, true)
+			c.Count(fmt.Sprintf("invalid-group.safe-prime-%d-bits.%s", p.BitLen(), out))
+			if out != "err bad-group" {
+				c.Fail("srp-invalid-group-accepted", line, fmt.Sprintf("%d-bit safe prime group with valid generator %d: %s", p.BitLen(), g, out))
+			}
+			cs = append(cs, cmp{line, out})
+		}
 	}
 
 	// ---- 3b. SRP.NewHash (setting a new password): (padded verifier, salt1 ‖ 32 random bytes); then a login
